@@ -423,10 +423,11 @@ theorem blockCtor_two_by_two (A11 A12 A21 A22 : Mat)
             (toM A21 A21.rows A11.cols) (toM A22 A21.rows A12.cols)) := by
   have hv : blockValid [[A11, A12], [A21, A22]] = true := by
     simp [blockValid, List.range_succ, h1, h2, h3, h4]
+  have hl : blockLayoutOk [[A11, A12], [A21, A22]] = true := by simp [blockLayoutOk]
   cases hb : blockCtor [[A11, A12], [A21, A22]] with
-  | error e => simp [blockCtor, hv] at hb
+  | error e => simp [blockCtor, hv, hl] at hb
   | ok C =>
-  simp [blockCtor, hv] at hb
+  simp [blockCtor, hv, hl] at hb
   subst hb
   refine ⟨_, rfl, by simp [listSum], by simp [listSum], ?_⟩
   ext i j
@@ -478,6 +479,31 @@ theorem blockCtor_entry {g : List (List Mat)} {C : Mat} (h : blockCtor g = .ok C
           rw [e]; exact hjj)
       rw [get_ofFn _ hr.2 hc.2]
       simp only [hr.1, hc.1]
+
+
+/-- an empty or ragged list of blocks is rejected with the diagnostic (fix f27d82c) -/
+theorem blockCtor_layout_err {g : List (List Mat)} (h : blockLayoutOk g = false) : blockCtor g = .error .diag := by
+  simp [blockCtor, h]
+
+/-- the block constructor is defined exactly for a rectangular non-empty layout of blocks whose
+    heights and widths are consistent; every other request gives the diagnostic -/
+theorem blockCtor_defined_iff (g : List (List Mat)) :
+    (∃ C, blockCtor g = .ok C) ↔ (blockLayoutOk g = true ∧ blockValid g = true) := by
+  unfold blockCtor
+  cases hl : blockLayoutOk g <;> cases hv : blockValid g <;> simp
+
+theorem blockCtor_err_iff (g : List (List Mat)) :
+    blockCtor g = .error .diag ↔ ¬ (blockLayoutOk g = true ∧ blockValid g = true) := by
+  unfold blockCtor
+  cases hl : blockLayoutOk g <;> cases hv : blockValid g <;> simp
+
+/-- the layout test spelled out: at least one row, a non-empty first row, all rows of its length -/
+theorem blockLayoutOk_iff (g : List (List Mat)) :
+    blockLayoutOk g = true ↔ (g ≠ [] ∧ (g.headD []) ≠ [] ∧ ∀ r ∈ g, r.length = (g.headD []).length) := by
+  simp [blockLayoutOk, List.all_eq_true, and_assoc]
+
+example : blockCtor [] = .error .diag ∧ blockCtor [[]] = .error .diag ∧
+    blockCtor [[⟨1, 1, [[1]]⟩, ⟨1, 1, [[2]]⟩], [⟨1, 1, [[3]]⟩]] = .error .diag := by decide +kernel
 
 /-- a grid whose block shapes do not tile is rejected -/
 theorem blockCtor_invalid_two_by_two (A11 A12 A21 A22 : Mat)
@@ -789,6 +815,15 @@ theorem vnormScaledSq_eq (e : ℤ) (u : Vec) : vnormScaledSq e u = vnormSq u := 
 
 /-- the squared norm is the dot product of the vector with itself (`Norm() = sqrt(Dot(*this))` before the fix) -/
 theorem vnormSq_eq_dot (u : Vec) : dot u u = .ok (vnormSq u) := by simp [dot, vnormSq]
+
+
+/-- dividing in the scaled domain (fix a1cdfe7) is dividing by the norm, for every exponent -/
+theorem vdivScaled_eq (e : ℤ) (v : Vec) (nrm : ℚ) : Hist.vdivScaled e v nrm = vsdiv v nrm := by
+  unfold Hist.vdivScaled vsdiv
+  have h2 : (2 : ℚ) ^ (-e) ≠ 0 := zpow_ne_zero _ (by norm_num)
+  congr 1
+  funext i
+  rw [mul_div_mul_right _ _ h2]
 
 /-! ## Chained compound assignment -/
 
